@@ -536,15 +536,19 @@ class DropletTrackList(list):
             ) -> None:
                 """Helper function adding emulsions to the tracks."""
                 found_multiple_overlap = False
+                # droplets of the previous frame (fixed before any track is extended)
+                previous = [track.last for track in tracks_alive]
+                extended: set[int] = set()  # tracks that already got a droplet of this frame
                 for droplet in emulsion:
                     # determine which old tracks could be extended
-                    overlaps: list[DropletTrack] = []
-                    for track in tracks_alive:
-                        if track.last.overlaps(droplet, grid=grid):
-                            overlaps.append(track)
+                    overlaps: list[int] = []
+                    for i, droplet_prev in enumerate(previous):
+                        if droplet_prev.overlaps(droplet, grid=grid):
+                            overlaps.append(i)
 
-                    if len(overlaps) == 1:
-                        overlaps[0].append(droplet, time=time)
+                    if len(overlaps) == 1 and overlaps[0] not in extended:
+                        tracks_alive[overlaps[0]].append(droplet, time=time)
+                        extended.add(overlaps[0])
                     else:
                         if len(overlaps) > 1:
                             found_multiple_overlap = True
